@@ -86,6 +86,67 @@ def election_corpus(tier, seed):
     return EL.add_slow_slice(rng, inputs, 100 if q else 1000)
 
 
+def positional_py(bag, cands, vec):
+    """Scoring.tla's Positional transcribed to exact Python fractions.  Used ONLY for score vectors outside TLC's exact range
+    (non-dyadic floats, denominators above 20,000); on the in-range corpus it is itself cross-checked against the traces TLC accepted."""
+    vec = [F(x) for x in vec] + [F(0)] * len(cands)
+    tot = {c: F(0) for c in cands}
+    for b in bag:
+        groups = [list(g) for g in b["r"]]
+        listed = {c for g in groups for c in g}
+        rest = [c for c in cands if c not in listed]
+        if rest:
+            groups.append(rest)
+        pos = 0
+        for g in groups:
+            share = sum(vec[pos:pos + len(g)], F(0)) / len(g)
+            for c in g:
+                tot[c] += share * F(*b["w"])
+            pos += len(g)
+    return tot
+
+
+WIDE_VECTORS = [[0.7, 0.1], [0.5000001, 0.5, 0.1], [F(1000003, 1000001), 1, F(1, 3000017)], [0.3, 0.3, 0.1], [1 / 3, 1 / 3, 0.0],
+                [F(22, 7), 3.14, 3], [1e-7, 1e-8]]
+
+
+def wide_work(inp):
+    """Borda elections and the scoring utility with score vectors beyond TLC's range: compared with positional_py (declared in evidence)"""
+    from .. import elections as E
+    from votekit import utils as U
+    import votekit.elections as VE
+    E.fast_df(True)
+    prof = E.build_profile(inp["cands"], inp["ballots"])
+    bag = E._abstract_bag(inp["ballots"])
+    out = []
+    for v in inp["vectors"]:
+        want = positional_py(bag, inp["cands"], v)
+        try:
+            with quiet():
+                got = U.score_profile_from_rankings(prof, v)
+            if dict(got) != want:
+                out.append(("positional:WideVector(py)", "score_profile_from_rankings differs from the definition for vector %r" % (v,)))
+        except Exception as ex:  # noqa
+            out.append(("positional:WideVector(py):Error", "%s for vector %r" % (type(ex).__name__, v)))
+        ranked = sorted(want.values(), reverse=True)
+        for m in range(1, len(inp["cands"]) + 1):
+            try:
+                with quiet():
+                    e = VE.Borda(prof, m=m, score_vector=v, tiebreak=None)
+                sc0 = dict(e.election_states[0].scores)
+                if sc0 != want:
+                    out.append(("Borda:WideVector(py):Scores", "round-0 scores of Borda differ from the definition for vector %r" % (v,)))
+                el = [c for s in e.get_elected() for c in s]
+                if len(el) != m or min(want[c] for c in el) < max([want[c] for c in inp["cands"] if c not in el] or [min(want[c] for c in el)]):
+                    out.append(("Borda:WideVector(py):Winners", "Borda winners are not the top m for vector %r" % (v,)))
+            except ValueError:
+                if m < len(ranked) and ranked[m - 1] != ranked[m]:
+                    out.append(("Borda:WideVector(py):SpuriousTie", "Borda raised ValueError although the exact scores have no tie at seat %d, vector %r" % (m, v)))
+            except Exception as ex:  # noqa
+                out.append(("Borda:WideVector(py):Error", "%s for vector %r" % (type(ex).__name__, v)))
+    return [(sig, what, inp) for sig, what in out]
+
+
 def run(tier, seed, replay=None):
     res = Result(PID, tier, seed)
     scratch(PID)
@@ -119,6 +180,25 @@ def run(tier, seed, replay=None):
         if any(len(pos) > 1 for b in t["bag"] for pos in b["r"]) or any(sum(len(p) for p in b["r"]) < len(t["cands"]) for b in t["bag"]):
             res.nontrivial.add(json.dumps([t["op"], t["bag"], t["vec"]]))
     judge_calls(res, PID, "ScoringTrace", traces, what="scoring call disagrees with the definition")
+    # cross-check of the Python transcription on the in-range corpus: wherever TLC accepted a positional call, positional_py must agree
+    bad_py = 0
+    for t in traces:
+        if t["op"] == "positional" and not t["error"] and t.get("_accepted", True):
+            want = positional_py(t["bag"], t["cands"], [F(*x) for x in t["vec"]])
+            if sorted([[c, rat(v)] for c, v in want.items()]) != t["result"]:
+                bad_py += 1
+    if bad_py and not res.violations:
+        raise Machinery("positional_py disagrees with traces TLC accepted (%d): the supplementary oracle is wrong" % bad_py)
+    rngw = random.Random(4040 + seed)
+    wide_inputs = [{"cands": i["cands"], "ballots": i["ballots"], "vectors": rngw.sample(WIDE_VECTORS, 3)}
+                   for i in rngw.sample([c for c in calls if "names" not in c], min(len(calls), 200 if tier == "quick" else 3000))] if not replay else []
+    with mp.get_context("fork").Pool(16) as pool:
+        for vs in pool.imap_unordered(wide_work, wide_inputs, chunksize=8):
+            for sig, what, inp in vs:
+                res.violation(sig, what, {"input": inp})
+    res.notes["python_compared"] = len(wide_inputs) * 3
+    res.notes["python_compared_note"] = ("score vectors with non-dyadic floats or denominators above 20,000 are outside TLC's exact range; they are compared with "
+                                         "positional_py, a transcription of Scoring.tla's Positional that is itself cross-checked against the TLC-accepted traces of this run")
     etr = EL.record_corpus(elects)
     EL.judge(res, PID, etr, os.path.join(OUT, PID, "traces"), nontrivial=lambda t: True)
     res.notes["calls"] = len(traces)
